@@ -124,14 +124,14 @@ def on_package(pkg, rec, label):
     if _state["wf"]:
         rec.count("M-pkg.wellformed")
         for cls, msg in pkgread.wellformed(pkg)[:4]:
-            rec.violation(f"pkg-{cls}", f"[{label}] {msg}", case=witness())
+            rec.violation(f"pkg-{cls}", f"[{label}] {msg}", case=witness(), label=label)
         # acceptance by from_proto
         try:
             h.from_proto(pkg)
             rec.count("M-pkg.from_proto-accepts")
         except Exception as e:
             rec.violation(f"pkg-from_proto-rejects:{type(e).__name__}", f"[{label}] from_proto rejects the package: {type(e).__name__}: {str(e)[:160]}",
-                          case=witness())
+                          case=witness(), label=label)
         if not has_uncompiled_primitives(pkg):
             for fmt in ("spice", "spectre"):
                 try:
@@ -142,7 +142,7 @@ def on_package(pkg, rec, label):
 
                     reason = re.sub(r"`[^`]*`|\"[^\"]*\"|'[^']*'|\d+", "_", str(e).split("\n")[0].split(" for ")[0])[:50].strip()
                     rec.violation(f"pkg-{fmt}-netlister-rejects:{reason}",
-                                  f"[{label}] the {fmt} netlister rejects the package: {type(e).__name__}: {str(e)[:160]}", case=witness())
+                                  f"[{label}] the {fmt} netlister rejects the package: {type(e).__name__}: {str(e)[:160]}", case=witness(), label=label)
         else:
             rec.count("M-pkg.netlisting-skipped-uncompiled-primitives")
     if _state["rt"]:
@@ -154,13 +154,13 @@ def on_package(pkg, rec, label):
             imp.import_()
             mods = list(imp.modules.values())
         except Exception as e:
-            rec.violation(f"rt-import-raises:{type(e).__name__}", f"[{label}] from_proto raised {type(e).__name__}: {str(e)[:160]}", case=witness())
+            rec.violation(f"rt-import-raises:{type(e).__name__}", f"[{label}] from_proto raised {type(e).__name__}: {str(e)[:160]}", case=witness(), label=label)
             return
         try:
             again = _state["orig"](mods, domain=pkg.domain)
         except Exception as e:
             rec.violation(f"rt-reexport-raises:{type(e).__name__}", f"[{label}] re-export of the imported modules raised {type(e).__name__}: {str(e)[:160]}",
-                          case=witness())
+                          case=witness(), label=label)
             return
         rec.count("M-rt.compared")
         if again != pkg and normalized(again) == normalized(pkg):
@@ -171,7 +171,7 @@ def on_package(pkg, rec, label):
 
             field = re.sub(r"\[[^\]]*\]", "[]", d.split(":")[0])
             rec.violation(f"rt-differs:{field}", f"[{label}] to_proto(from_proto(P)) != P; first difference (original vs round trip): {d}", case=witness(),
-                          field=field)
+                          field=field, label=label)
 
 
 def attach(rec, wellformed=True, roundtrip=True) -> None:
